@@ -80,14 +80,13 @@ pub fn logger() -> slog::Logger {
     slog::Logger::root(slog::Discard, slog::o!())
 }
 
-pub fn configuration(dir: &Path, with_transactions: bool) -> ServeCommandConfiguration {
-    let mut types = vec![SignedEntityTypeDiscriminants::CardanoDatabase.to_string()];
-    if with_transactions {
-        types.push(SignedEntityTypeDiscriminants::CardanoTransactions.to_string());
-    }
+/// `msd_only`: the default configuration of an aggregator, in which the Mithril stake distribution
+/// is the only signed entity type (one certificate per epoch: an epoch without it is a gap)
+pub fn configuration(dir: &Path, msd_only: bool) -> ServeCommandConfiguration {
+    let types = if msd_only { None } else { Some(SignedEntityTypeDiscriminants::CardanoDatabase.to_string()) };
     ServeCommandConfiguration {
         protocol_parameters: Some(protocol_parameters()),
-        signed_entity_types: Some(types.join(",")),
+        signed_entity_types: types,
         data_stores_directory: dir.join("stores"),
         ..ServeCommandConfiguration::new_sample(dir.join("sample"))
     }
@@ -144,11 +143,11 @@ async fn build_node(config: &ServeCommandConfiguration, outside: &Outside) -> No
 impl World {
     /// A fresh aggregator at epoch 1 with the genesis certificate stored (state of the integration
     /// tests right after `register_genesis_certificate`).
-    pub async fn new(dir: PathBuf, nsigners: usize, with_transactions: bool) -> World {
+    pub async fn new(dir: PathBuf, nsigners: usize, msd_only: bool) -> World {
         let _ = std::fs::remove_dir_all(&dir);
         std::fs::create_dir_all(&dir).unwrap();
         let ctl = crate::ctl::Ctl::install();
-        let config = configuration(&dir, with_transactions);
+        let config = configuration(&dir, msd_only);
         let start = start_time_point();
         let immutable_file_observer = Arc::new(DumbImmutableFileObserver::new());
         immutable_file_observer.shall_return(Some(start.immutable_file_number)).await;
